@@ -16,16 +16,22 @@ def T(tier, q, t):
 # generic flow for properties decided by trace validation of recorded histories
 
 def gather_rejects(work, results, tag):
-    """Copy every rejected history into its own file; returns list of dicts."""
+    """Collect the events of every rejected history; returns list of dicts."""
+    import re
+    hre = re.compile(r'"h":(-?\d+)[,}]')
     out = []
-    d = work.sub('rejects-' + tag)
     for r in results:
+        if not r['rejects']:
+            continue
+        want = {h for (_, h, _) in r['rejects']}
+        by = {h: [] for h in want}
+        with open(r['path']) as f:
+            for line in f:
+                mm = hre.search(line)
+                if mm and int(mm.group(1)) in want:
+                    by[int(mm.group(1))].append(line.rstrip('\n'))
         for (line, h, info) in r['rejects']:
-            ev = vlib.history_events(r['path'], h)
-            p = os.path.join(d, 'h%d.ndjson' % h)
-            with open(p, 'w') as f:
-                f.write('\n'.join(ev) + '\n')
-            out.append(dict(h=h, line=line, shard=r['path'], file=p, events=ev, info=info))
+            out.append(dict(h=h, line=line, shard=r['path'], events=by[h], info=info))
     return out
 
 
@@ -53,7 +59,7 @@ def attribute_batch(work, P, rejects):
     return [r for r in rejects if r['h'] not in bad], [r for r in rejects if r['h'] in bad]
 
 
-def decide(work, prop, P, rejects, tr):
+def decide(work, prop, P, rejects, tr, start=0):
     """Confirm + attribute.  Returns (violations [witness paths], known ids, notes)."""
     explained, unexplained = attribute_batch(work, P, rejects)
     notes = {}
@@ -68,7 +74,7 @@ def decide(work, prop, P, rejects, tr):
             known_ids = opens
     violations = []
     unconfirmed = 0
-    k = 0
+    k = start
     for r in unexplained[:MAX_CONFIRM]:
         k += 1
         wit = vlib.save_witness(prop, k, r['events'])
@@ -110,41 +116,73 @@ def run_generic(prop, tier, seed, t0):
     mcs = []
     paths = os.path.join(work.dir, 'paths.ndjson')
     have_paths = False
-    for m in P.get('mc', []):
-        if m.get('tier') and m['tier'] != tier:
-            continue
+    todo = [m for m in P.get('mc', []) if not (m.get('tier') and m['tier'] != tier)]
+
+    def one(im):
+        i, m = im
         cfg = m['cfg'] if isinstance(m['cfg'], str) else T(tier, *m['cfg'])
+        pf = os.path.join(work.dir, 'paths-%d.ndjson' % i) if m.get('emit') else None
         r = vlib.model_check(work, m['module'], cfg, workers=m.get('workers'), timeout=m.get('timeout', 1500),
-                             emit_to=paths if m.get('emit') else None, heap=m.get('heap', '12g'),
+                             emit_to=pf, heap=m.get('heap', '12g'),
                              stack=m.get('stack', '64m'), must_hold=not m.get('expect_violation'))
-        if m.get('expect_violation'):
-            # as-is design must be refuted by TLC (the model sees the known defect)
-            if r['ok']:
-                raise MachineryError('%s %s: expected TLC to find the known defect, but it did not' % (m['module'], cfg))
-        have_paths = have_paths or bool(m.get('emit'))
-        states += r['distinct']
-        trans += r['generated']
-        mcs.append(dict(module=m['module'], cfg=cfg, distinct=r['distinct'], generated=r['generated'],
-                        depth=r['depth'], wall_s=round(r['wall'], 1), emitted=r.get('emitted', 0),
-                        refuted=bool(m.get('expect_violation'))))
-    meta = vlib.run_harness(work, prop, seed, tier, paths=paths if have_paths else None,
-                            extra=P.get('harness_args', []))
-    tr = P['trace']
-    res = vlib.validate_dir(work, tr['module'], tr['cfg'], meta['dir'], env=tr.get('env'),
-                            stack=tr.get('stack', '64m'), heap=tr.get('heap', '3g'))
-    rejects = gather_rejects(work, res, 'abs')
-    violations, known, notes = decide(work, prop, P, rejects, tr)
-    extra = dict(model_checking_runs=mcs, harness=dict(histories=meta['histories'], events=meta['events'],
-                 tlc_paths_replayed=meta['paths'], hooks=work.hooks), validation=notes,
-                 trace_spec=tr['module'], events_validated=sum(r['n'] for r in res),
-                 generators={k[5:]: v for k, v in meta['counters'].items() if k.startswith('hist:')})
+        if m.get('expect_violation') and r['ok']:
+            # the as-is design must be refuted by TLC (the model sees the known defect)
+            raise MachineryError('%s %s: expected TLC to find the known defect, but it did not' % (m['module'], cfg))
+        return m, cfg, r, pf
+
+    import concurrent.futures as cf
+    with cf.ThreadPoolExecutor(max_workers=P.get('mc_parallel', 4)) as ex:
+        results = list(ex.map(one, enumerate(todo)))
+    with open(paths, 'w') as pf_all:
+        for m, cfg, r, pf in results:
+            if pf:
+                have_paths = True
+                with open(pf) as f:
+                    shutil.copyfileobj(f, pf_all)
+                os.remove(pf)
+            states += r['distinct']
+            trans += r['generated']
+            mcs.append(dict(module=m['module'], cfg=cfg, distinct=r['distinct'], generated=r['generated'],
+                            depth=r['depth'], wall_s=round(r['wall'], 1), emitted=r.get('emitted', 0),
+                            refuted=bool(m.get('expect_violation'))))
+    variants = P.get('variants') or [dict(harness_args=P.get('harness_args', []), trace=P['trace'])]
+    violations, known, allnotes = [], [], {}
+    nhist = nevents = npaths = nval = 0
+    samples, gens, counters = [], {}, {}
+    for vi, var in enumerate(variants):
+        meta = vlib.run_harness(work, prop, seed, tier, paths=paths if have_paths else None,
+                                extra=var.get('harness_args', []))
+        tr = var['trace']
+        res = vlib.validate_dir(work, tr['module'], tr['cfg'], meta['dir'], env=tr.get('env'),
+                                stack=tr.get('stack', '64m'), heap=tr.get('heap', '3g'))
+        rejects = gather_rejects(work, res, 'abs')
+        v, k, notes = decide(work, prop, dict(P, **var), rejects, tr, start=len(violations))
+        violations += v
+        known = known or k
+        for kk, vv in notes.items():
+            allnotes[kk] = allnotes.get(kk, 0) + vv
+        nhist += meta['histories']
+        nevents += meta['events']
+        npaths += meta['paths']
+        nval += sum(r['n'] for r in res)
+        samples = samples or meta['samples']
+        for kk, vv in meta['counters'].items():
+            counters[kk] = counters.get(kk, 0) + vv
+            if kk.startswith('hist:'):
+                gens[kk[5:]] = gens.get(kk[5:], 0) + vv
+        shutil.rmtree(meta['dir'], True)
+    meta = dict(counters=counters)
+    extra = dict(model_checking_runs=mcs, harness=dict(histories=nhist, events=nevents,
+                 tlc_paths_replayed=npaths, hooks=work.hooks), validation=allnotes,
+                 trace_spec=[v['trace']['module'] + '/' + v['trace']['cfg'] for v in variants],
+                 events_validated=nval, generators=gens)
     post = P.get('post')
     if post:
         post(work, meta, extra)
-    vlib.write_evidence(prop, tier, seed, t0, states, trans, meta['histories'], meta['samples'], extra,
+    vlib.write_evidence(prop, tier, seed, t0, states, trans, nhist, samples, extra,
                         violations=len(violations), assumptions=P.get('assumptions', []),
                         exhaustive=False)
-    return finish(prop, violations, known, notes['unconfirmed'])
+    return finish(prop, violations, known, allnotes['unconfirmed'])
 
 
 def run(prop, tier, seed, t0):
@@ -158,9 +196,17 @@ def replay(prop, witness):
         return P['replay'](prop, witness)
     work = vlib.Work(prop)
     vlib.build_harness(work)
-    tr = P['trace']
-    ok, newev, note = vlib.confirm(work, prop, witness, tr['module'], tr['cfg'], env=tr.get('env'),
-                                   stack=tr.get('stack', '64m'))
+    trs = [v['trace'] for v in P['variants']] if P.get('variants') else [P['trace']]
+    ok = False
+    for tr in trs:
+        try:
+            ok, newev, note = vlib.confirm(work, prop, witness, tr['module'], tr['cfg'], env=tr.get('env'),
+                                           stack=tr.get('stack', '64m'))
+        except MachineryError as e:
+            note = str(e)
+            continue
+        if ok or len(trs) == 1:
+            break
     if ok:
         print('REPRODUCED: the real code again behaves as the specification %s forbids' % tr['module'])
         with open(newev) as f:
@@ -190,3 +236,67 @@ PROPS['C07'] = dict(
                  'the Go driver logs results faithfully (checked by bin/selftest corruption tests)',
                  'exhaustive only within the stated capacity bound; beyond it histories are seeded samples'],
 )
+
+
+# --------------------------------------------------------------------------
+# C01 / C02 stree.Tree
+
+def _scapegoat_mc(tier):
+    out = []
+    for b in (0, 250, 500, 750, 1000):
+        out.append(dict(module='Scapegoat', cfg=('Scapegoat_b%d_q.cfg' % b, 'Scapegoat_b%d_t.cfg' % b), emit=True,
+                        workers=4))
+    for b in (0, 1000):
+        out.append(dict(module='Scapegoat', cfg='Scapegoat_b%d_tag.cfg' % b, emit=True, workers=4))
+    return out
+
+
+STREE_ASSUME = ['TLC; SortedSet/Scapegoat/BigNat modules as transcription of the property and of stree.go',
+                'exhaustive over all histories of the modelled key universe only; larger trees are seeded samples',
+                'a clone inherits P (largest Len) from its original (DESIGN.md section 6)']
+PROPS['C01'] = dict(mc=_scapegoat_mc(None), trace=dict(module='SortedSetTrace', cfg='SortedSetTrace.cfg'),
+                    assumptions=STREE_ASSUME)
+PROPS['C02'] = dict(mc=_scapegoat_mc(None), trace=dict(module='BalanceTrace', cfg='BalanceTrace.cfg', stack='256m'),
+                    assumptions=STREE_ASSUME)
+
+# --------------------------------------------------------------------------
+# C03 stree.Cursor
+PROPS['C03'] = dict(
+    mc=[dict(module='TreeCursorMC', cfg=('TreeCursorMC_q.cfg', 'TreeCursorMC_t.cfg'), emit=True, workers=8)],
+    trace=dict(module='TreeCursorTrace', cfg='TreeCursorTrace.cfg', stack='256m'),
+    assumptions=['TLC; TreeCursor module: abstract moves defined by key order, algorithmic moves transcribed from cursor.go',
+                 'all binary-tree shapes up to the node bound are exhaustive; larger trees and longer move sequences are seeded samples',
+                 'real trees of a given shape are built by pre-order insertion with beta=1000 (no rebalancing)'])
+
+
+# --------------------------------------------------------------------------
+# C04 omap.Map
+PROPS['C04'] = dict(
+    mc=[dict(module='OrderedMapMC', cfg=('OrderedMapMC_q.cfg', 'OrderedMapMC_t.cfg'), emit=True, workers=8),
+        dict(module='OrderedMapMC', cfg='OrderedMapMC_rev.cfg', emit=True, workers=4)],
+    variants=[dict(harness_args=[], trace=dict(module='OrderedMapTrace', cfg='OrderedMapTrace_FALSE.cfg')),
+              dict(harness_args=['-rev'], trace=dict(module='OrderedMapTrace', cfg='OrderedMapTrace_TRUE.cfg'))],
+    assumptions=['TLC; OrderedMap module as transcription of the property',
+                 'iterators are only stepped when not stale (no Set/Clear/successful Delete since they were positioned), as the package documents',
+                 'structure-level exhaustiveness of the underlying tree is covered by C01'])
+
+# --------------------------------------------------------------------------
+# C05 / C06 heapq.Queue
+HEAP_ASSUME = ['TLC; PriorityBagTrace as transcription of the property; Heap.tla as transcription of heapq.go',
+               'known findings F1/F2 are attributed by the as-is model HeapTrace(Known={F1,F2}): a rejected history is a known finding iff the real queue produced exactly the arrays/results/reports that model prescribes',
+               'exhaustive within the stated length/priority bounds; larger queues are seeded samples']
+PROPS['C05'] = dict(
+    mc=[dict(module='HeapMC', cfg=('HeapMC_fixed_q.cfg', 'HeapMC_fixed_t.cfg'), workers=8),
+        dict(module='HeapMC', cfg='HeapMC_asis_refute.cfg', expect_violation=True, workers=4),
+        dict(module='HeapMC', cfg='HeapMC_f1_refute.cfg', expect_violation=True, workers=4),
+        dict(module='HeapMC', cfg='HeapMC_f2_refute.cfg', expect_violation=True, workers=4),
+        dict(module='HeapMC', cfg=('HeapMC_asis_gen_q.cfg', 'HeapMC_asis_gen_t.cfg'), emit=True, workers=8)],
+    trace=dict(module='PriorityBagTrace', cfg='PriorityBagTrace.cfg'),
+    asis=dict(module='HeapTrace', cfg='HeapTrace_asis.cfg'),
+    assumptions=HEAP_ASSUME)
+PROPS['C06'] = dict(
+    mc=[dict(module='HeapMC', cfg='HeapMC_posfixed_q.cfg', workers=8),
+        dict(module='HeapMC', cfg=('HeapMC_pos_q.cfg', 'HeapMC_pos_t.cfg'), emit=True, workers=8)],
+    trace=dict(module='PosTrace', cfg='PosTrace.cfg'),
+    assumptions=['TLC; PosTrace as transcription of the property; HeapMC checks position tracking on both the corrected and the as-is heap',
+                 'position tracking is independent of heap order: C05\'s known findings do not affect it'])
